@@ -547,7 +547,7 @@ class Interp(CallMixin):
             sub = (frame.fn.nested_nodes.get(id(st)) or frame.fn.nested.get(st.name)) if frame.fn is not None else None
             if sub is None:
                 self.unsupported(st, frame, "nested function not indexed")
-            frame.vars[st.name] = FuncVal(fn=sub, env=frame, module=frame.module)
+            frame.vars[st.name] = FuncVal(fn=sub, env=frame, module=frame.module, defaults=self.eval_defaults(st.args, frame))
             return
         if isinstance(st, (ast.Import, ast.ImportFrom)):
             for a in st.names:
@@ -928,7 +928,7 @@ class Interp(CallMixin):
         if isinstance(e, (ast.ListComp, ast.SetComp, ast.GeneratorExp, ast.DictComp)):
             return self.comprehension(e, frame)
         if isinstance(e, ast.Lambda):
-            return FuncVal(fn=None, env=frame, lambda_node=e, module=frame.module)
+            return FuncVal(fn=None, env=frame, lambda_node=e, module=frame.module, defaults=self.eval_defaults(e.args, frame))
         if isinstance(e, ast.Starred):
             self.unsupported(e, frame, "starred outside call")
         if isinstance(e, ast.NamedExpr):
@@ -1194,7 +1194,7 @@ class Interp(CallMixin):
         if fv.lambda_node is not None:
             lam = fv.lambda_node
             frame = Frame(fv.env.fn if fv.env else None, fv.module or fv.env.module, fv.env, set())
-            self.bind_params(lam.args, None, args, kwargs, frame, "<lambda>")
+            self.bind_params(lam.args, fv, args, kwargs, frame, "<lambda>")
             return self.eval(lam.body, frame)
         fn: FuncDef = fv.fn
         if fn.qualname in self.call_observers:
@@ -1218,6 +1218,25 @@ class Interp(CallMixin):
         finally:
             self.call_depth -= 1
 
+    def eval_defaults(self, a: ast.arguments, frame: Frame) -> Dict[str, Any]:
+        """Parameter defaults are evaluated once, when the function object is created, in the defining scope."""
+        pos = [*a.posonlyargs, *a.args]
+        out: Dict[str, Any] = {}
+        for p, d in zip(pos[len(pos) - len(a.defaults):], a.defaults):
+            out[p.arg] = self.eval(d, frame)
+        for p, d in zip(a.kwonlyargs, a.kw_defaults):
+            if d is not None:
+                out[p.arg] = self.eval(d, frame)
+        return out
+
+    def default_value(self, fv: Optional[FuncVal], pname: str, d: ast.expr, frame: Frame, name: str) -> Any:
+        if fv is not None and fv.defaults is not None and pname in fv.defaults:
+            return fv.defaults[pname]
+        key = ("default", name, pname, id(d))
+        if key not in self.attr_memo:  # module-level functions and methods: one default object per run (shared by all calls)
+            self.attr_memo[key] = self.eval(d, Frame(None, frame.module, None, set()))
+        return self.attr_memo[key]
+
     def bind_params(self, a: ast.arguments, fv: Optional[FuncVal], args: List[Any], kwargs: Dict[str, Any],
                     frame: Frame, name: str) -> None:
         args = list(args)
@@ -1237,7 +1256,7 @@ class Interp(CallMixin):
             elif p.arg in injected:
                 frame.vars[p.arg] = injected[p.arg]
             elif d is not None:
-                frame.vars[p.arg] = self.eval(d, Frame(None, frame.module, None, set()))
+                frame.vars[p.arg] = self.default_value(fv, p.arg, d, frame, name)
             else:
                 self.raise_("TypeError", f"{name}() missing required argument '{p.arg}'")
         if len(args) > len(pos):
@@ -1252,7 +1271,7 @@ class Interp(CallMixin):
             elif p.arg in injected:
                 frame.vars[p.arg] = injected[p.arg]
             elif d is not None:
-                frame.vars[p.arg] = self.eval(d, Frame(None, frame.module, None, set()))
+                frame.vars[p.arg] = self.default_value(fv, p.arg, d, frame, name)
             else:
                 self.raise_("TypeError", f"{name}() missing keyword-only argument '{p.arg}'")
         if a.kwarg is not None:
